@@ -34,11 +34,16 @@ def history(r, coin, nblocks, few_addresses=False, many_outputs=False):
         if txs and r.random() < 0.25:      # sweep: consecutive inputs spend ALL outputs of one earlier transaction in index order (address-less ones included, often first)
             ft = r.choice(txs[-6:]); ins = [(ft.txid, i2, b'', 0xffffffff) for i2 in range(min(len(ft.outputs), 6))]; tags.add('sweep')
             if r.random() < 0.3: ins.reverse()
+        if pool and r.random() < 0.12:      # the null outpoint (00..00:ffffffff) as FIRST input of a transaction with further inputs: only a single-input transaction of that shape is a coinbase
+            ins = [(b'\x00' * 32, 0xffffffff, b'', 0xffffffff)] + [(o_[0], o_[1], b'', 0xffffffff) for o_ in r.sample(pool, min(len(pool), r.randrange(1, 3)))]; tags.add('null_first_input')
         nout = r.choice([1, 2, 3, 4]) if not (many_outputs and j == 1) else r.choice([256, 257, 300]); 
         if nout > 255: tags.add('>255 outputs')
         outs = [(r.choice([0, 1, 5000, r.randrange(10**9)]), script()) for _ in range(nout)]
         if nout >= 2 and r.random() < 0.4: outs[0] = (outs[0][0], r.choice([b'\x6a\x02hi', b'', b'\x51', b'\x76\xa9\x14' + gen.rb(r, 19)])); tags.add('addressless_first')
-        t = Tx(ins, outs); txs.append(t); pool += [(t.txid, i) for i in range(nout)]
+        wd = None
+        if r.random() < 0.15:      # over-long CompactSize encodings: the txid (and so every later reference to this transaction) commits to them
+            wd = {'in': r.choice([3, 5, 9]), 'out': r.choice([3, 5, 9]), ('isl', 0): r.choice([3, 5, 9]), ('osl', 0): r.choice([3, 5, 9])}; tags.add('noncanonical_widths')
+        t = Tx(ins, outs, widths=wd); txs.append(t); pool += [(t.txid, i) for i in range(nout)]
         if nout > 255: pool += [(t.txid, 256), (t.txid, 0), (t.txid, 1)]
     order = list(range(ntx))
     if r.random() < 0.5: r.shuffle(order); tags.add('shuffled_order')
@@ -127,7 +132,7 @@ def small_histories(r, limit):
 
 def explore(ck, cb='unspent', few=False):
     r = ck.rng; quick = ck.tier == 'quick'
-    ck.rule = ('random spend histories (fan-in/out, same-block spends, forward references to outputs of later transactions, several inputs on one tx, sweeps of all outputs of one transaction by consecutive inputs (address-less output first), unknown outpoints, double references, '
+    ck.rule = ('random spend histories (fan-in/out, same-block spends, forward references to outputs of later transactions, several inputs on one tx, the null outpoint as first of several inputs, transactions with over-long CompactSize encodings that are spent later, sweeps of all outputs of one transaction by consecutive inputs (address-less output first), unknown outpoints, double references, '
                'address-less outputs of every kind, ranges without any address-bearing output (header-only dump), spend-to-empty / refund / brand-new-address sequences, zero values, duplicate coinbase txids at different heights, > 255 outputs) x ranges x 8 coins, plus bounded-exhaustive two-block histories over a '
                'fixed outpoint pool; the row set of the dump is compared with the model and with the property\'s definition evaluated over the csvdump rows. '
                'Non-trivial: >= 1 in-range spend of an in-range output; distinct by history.')
